@@ -38,6 +38,17 @@ var targets = []struct {
 	{"shape.go", []string{"Shape.TotalSize", "Shape.CalcStrides", "Shape.CalcStridesColMajor", "Shape.Eq", "Shape.Clone",
 		"Shape.IsScalar", "Shape.IsScalarEquiv", "Shape.IsVector", "Shape.IsColVec", "Shape.IsRowVec", "Shape.IsVectorLike",
 		"Shape.IsMatrix", "Shape.Dims", "Shape.DimSize", "Shape.S", "Shape.Repeat", "Shape.Concat"}},
+	{"flags.go", []string{"MakeDataOrder", "DataOrder.IsColMajor", "DataOrder.IsRowMajor", "DataOrder.IsContiguous",
+		"DataOrder.IsNotContiguous", "DataOrder.IsTransposed", "DataOrder.toggleColMajor", "DataOrder.clearTransposed",
+		"DataOrder.HasSameOrder"}},
+	{"ap.go", []string{"MakeAP", "AP.SetShape", "AP.Dims", "AP.Size", "AP.IsVector", "AP.IsVectorLike", "AP.IsColVec", "AP.IsRowVec",
+		"AP.IsScalar", "AP.IsScalarEquiv", "AP.IsMatrix", "AP.lock", "AP.unlock", "AP.calcStrides", "AP.setDataOrder", "AP.S"}},
+}
+
+// fields of the struct types the translator knows (Go field -> Lean field, Lean type); the Lean structures are
+// in GoLib.lean
+var structs = map[string][]struct{ goName, lean, ty string }{
+	"GoAP": {{"shape", "shape", "List Int"}, {"strides", "strides", "List Int"}, {"fin", "fin", "Bool"}, {"o", "o", "GoOrder"}, {"Δ", "tri", "GoTri"}},
 }
 
 // ---------------------------------------------------------------------------------------------
@@ -45,6 +56,11 @@ var targets = []struct {
 type unsupported struct{ why string }
 
 func fail(format string, a ...interface{}) { panic(unsupported{fmt.Sprintf(format, a...)}) }
+
+var nilCompares int
+
+// names of the pointer-receiver methods that assign a field of their receiver (filled by main)
+var mutatingMethods = map[string]bool{}
 
 var reserved = map[string]bool{"at": true, "end": true, "from": true, "fun": true, "open": true, "in": true, "then": true,
 	"else": true, "do": true, "let": true, "have": true, "show": true, "by": true, "with": true, "match": true, "if": true,
@@ -58,6 +74,9 @@ var reserved = map[string]bool{"at": true, "end": true, "from": true, "fun": tru
 	"finally": true, "unless": true, "repeat": true, "while": true, "step": false}
 
 func mangle(s string) string {
+	if s == "Δ" {
+		return "tri"
+	}
 	if reserved[s] {
 		return s + "_"
 	}
@@ -81,6 +100,16 @@ func leanType(fset *token.FileSet, x ast.Expr) string {
 			return "GoSlice"
 		case "string":
 			return "String"
+		case "DataOrder":
+			return "GoOrder"
+		case "Triangle":
+			return "GoTri"
+		case "AP":
+			return "GoAP"
+		}
+	case *ast.StarExpr:
+		if id, ok := t.X.(*ast.Ident); ok && id.Name == "AP" {
+			return "GoAP"
 		}
 	case *ast.ArrayType:
 		if t.Len == nil {
@@ -93,6 +122,15 @@ func leanType(fset *token.FileSet, x ast.Expr) string {
 	return ""
 }
 
+func tryLeanType(fset *token.FileSet, x ast.Expr) (ty string) {
+	defer func() {
+		if r := recover(); r != nil {
+			ty = ""
+		}
+	}()
+	return leanType(fset, x)
+}
+
 func paren(s string) string {
 	if strings.Contains(s, " ") {
 		return "(" + s + ")"
@@ -102,8 +140,10 @@ func paren(s string) string {
 
 func zero(ty string) string {
 	switch {
-	case ty == "Int":
+	case ty == "Int" || ty == "GoOrder" || ty == "GoTri":
 		return "0"
+	case ty == "GoAP":
+		return "({} : GoAP)"
 	case ty == "Bool":
 		return "false"
 	case strings.HasPrefix(ty, "List "):
@@ -161,10 +201,18 @@ func proj(v string, k, n int) string {
 // ---------------------------------------------------------------------------------------------
 
 type sig struct {
-	lean    string   // Lean name
-	params  []string // Lean types
-	results []string
+	lean     string   // Lean name
+	params   []string // Lean types
+	results  []string // (for a mutating pointer receiver the updated receiver comes first)
+	variadic bool
+	mutRecv  bool
 }
+
+// integer constants of the translated files (`const ( A T = 1 << iota; B; C )` blocks)
+var consts = map[string]struct {
+	val int
+	ty  string
+}{}
 
 type variable struct {
 	lean string
@@ -193,6 +241,7 @@ type ftr struct {
 	loop    *loopCtx
 	calls   map[string]bool
 	idxAsg  map[string]bool // Go variables that are index-assigned somewhere in the function
+	mutRecv bool
 }
 
 func (t *ftr) push() { t.scopes = append(t.scopes, map[string]variable{}) }
@@ -259,6 +308,10 @@ func (t *ftr) receiverKey(x ast.Expr) string {
 		return "Shape"
 	case "GoSlice":
 		return "Slice"
+	case "GoOrder":
+		return "DataOrder"
+	case "GoAP":
+		return "AP"
 	}
 	return ""
 }
@@ -314,6 +367,9 @@ func (t *ftr) expr(x ast.Expr, want string) (pre []string, val string, ty string
 		if v, ok := t.lookup(e.Name); ok {
 			return nil, v.lean, v.ty
 		}
+		if c, ok := consts[e.Name]; ok {
+			return nil, fmt.Sprintf("(%d : %s)", c.val, c.ty), c.ty
+		}
 		fail("unknown identifier %s", e.Name)
 	case *ast.UnaryExpr:
 		p, v, ty := t.expr(e.X, want)
@@ -359,8 +415,39 @@ func (t *ftr) expr(x ast.Expr, want string) (pre []string, val string, ty string
 		tn := t.tmp()
 		pre = append(pre, fmt.Sprintf("let %s ← gslice %s %s %s", tn, vx, lo, hi))
 		return pre, tn, tx
+	case *ast.SelectorExpr:
+		px, vx, tx := t.expr(e.X, "")
+		for _, f := range structs[tx] {
+			if f.goName == e.Sel.Name {
+				return px, vx + "." + f.lean, f.ty
+			}
+		}
+		fail("field %s of %s", e.Sel.Name, tx)
 	case *ast.CompositeLit:
 		ty := leanType(t.fset, e.Type)
+		if fields, ok := structs[ty]; ok {
+			var parts []string
+			for _, el := range e.Elts {
+				kv, ok := el.(*ast.KeyValueExpr)
+				if !ok {
+					fail("positional struct literal")
+				}
+				k := kv.Key.(*ast.Ident).Name
+				found := false
+				for _, f := range fields {
+					if f.goName == k {
+						p, v, _ := t.expr(kv.Value, f.ty)
+						pre = append(pre, p...)
+						parts = append(parts, f.lean+" := "+v)
+						found = true
+					}
+				}
+				if !found {
+					fail("field %s", k)
+				}
+			}
+			return pre, "({ " + strings.Join(parts, ", ") + " } : " + ty + ")", ty
+		}
 		if !strings.HasPrefix(ty, "List ") {
 			fail("composite literal of %s", ty)
 		}
@@ -393,6 +480,14 @@ func (t *ftr) binary(e *ast.BinaryExpr) (pre []string, val string, ty string) {
 		}
 		if other != nil {
 			p, v, ty := t.expr(other, "")
+			if strings.HasPrefix(ty, "List ") {
+				// nil and empty slices are identified (GoLib.lean); recorded in the summary
+				nilCompares++
+				if e.Op == token.EQL {
+					return p, "(" + v + ".isEmpty)", "Bool"
+				}
+				return p, "(!" + v + ".isEmpty)", "Bool"
+			}
 			if ty != "GoErr" && ty != "GoSlice" {
 				fail("comparison of %s with nil", ty)
 			}
@@ -430,7 +525,16 @@ func (t *ftr) binary(e *ast.BinaryExpr) (pre []string, val string, ty string) {
 	pr, vr, _ := t.expr(e.Y, tl)
 	pre = append(pl, pr...)
 	switch e.Op {
+	case token.AND, token.OR, token.XOR, token.AND_NOT:
+		if tl != "GoOrder" {
+			fail("bit operation on %s", tl)
+		}
+		fn := map[token.Token]string{token.AND: "gand", token.OR: "gor", token.XOR: "gxor", token.AND_NOT: "gandnot"}[e.Op]
+		return pre, "(" + fn + " " + vl + " " + vr + ")", tl
 	case token.ADD, token.SUB, token.MUL:
+		if tl != "Int" {
+			fail("arithmetic on %s", tl)
+		}
 		return pre, "(" + vl + " " + e.Op.String() + " " + vr + ")", "Int"
 	case token.QUO, token.REM:
 		fn := "gdiv"
@@ -447,7 +551,7 @@ func (t *ftr) binary(e *ast.BinaryExpr) (pre []string, val string, ty string) {
 		op := map[token.Token]string{token.LSS: "<", token.LEQ: "≤", token.GTR: ">", token.GEQ: "≥"}[e.Op]
 		return pre, "(decide (" + vl + " " + op + " " + vr + "))", "Bool"
 	case token.EQL, token.NEQ:
-		if tl != "Int" && tl != "Bool" {
+		if tl != "Int" && tl != "Bool" && tl != "GoOrder" && tl != "GoTri" {
 			fail("equality of %s", tl)
 		}
 		op := "=="
@@ -471,6 +575,25 @@ func (t *ftr) args(es []ast.Expr, tys []string, variadic bool) (pre []string, va
 		vals = append(vals, paren(v))
 	}
 	return
+}
+
+// arguments of a call of a translated function; `skip` leading parameters belong to the receiver. The trailing
+// arguments of a variadic callee are collected into a list unless the call spreads a slice (`f(xs...)`).
+func (t *ftr) callArgs(e *ast.CallExpr, s *sig, skip int) (pre []string, vals []string) {
+	params := s.params[skip:]
+	if !s.variadic || e.Ellipsis.IsValid() {
+		return t.args(e.Args, params, false)
+	}
+	nfixed := len(params) - 1
+	pre, vals = t.args(e.Args[:nfixed], params[:nfixed], false)
+	elem := strings.TrimSuffix(strings.TrimPrefix(strings.TrimPrefix(params[nfixed], "List "), "("), ")")
+	var rest []string
+	for _, a := range e.Args[nfixed:] {
+		p, v, _ := t.expr(a, elem)
+		pre = append(pre, p...)
+		rest = append(rest, v)
+	}
+	return pre, append(vals, "["+strings.Join(rest, ", ")+"]")
 }
 
 func (t *ftr) call(e *ast.CallExpr, want string) (pre []string, val string, ty string) {
@@ -535,7 +658,7 @@ func (t *ftr) call(e *ast.CallExpr, want string) (pre []string, val string, ty s
 		}
 		if s, ok := t.sigs[f.Name]; ok {
 			t.calls[f.Name] = true
-			p, vs := t.args(e.Args, s.params, false)
+			p, vs := t.callArgs(e, s, 0)
 			pre = p
 			return monadic(s.lean, vs, tupleType(s.results))
 		}
@@ -588,8 +711,11 @@ func (t *ftr) call(e *ast.CallExpr, want string) (pre []string, val string, ty s
 			fail("call of %s", name)
 		}
 		t.calls[name] = true
+		if s.mutRecv {
+			fail("call of the receiver-modifying method %s in an expression", name)
+		}
 		p0, v0, _ := t.expr(f.X, "")
-		p, vs := t.args(e.Args, s.params[1:], false)
+		p, vs := t.callArgs(e, s, 1)
 		pre = append(p0, p...)
 		return monadic(s.lean, append([]string{paren(v0)}, vs...), tupleType(s.results))
 	}
@@ -667,6 +793,21 @@ func (t *ftr) assignTo(lhs ast.Expr, val string, define bool, ty string) []strin
 			fail("assignment to unknown %s", l.Name)
 		}
 		return []string{v.lean + " := " + val}
+	case *ast.SelectorExpr:
+		id, ok := l.X.(*ast.Ident)
+		if !ok {
+			fail("field assignment to %s", src(t.fset, l.X))
+		}
+		v, ok := t.lookup(id.Name)
+		if !ok {
+			fail("field assignment to unknown %s", id.Name)
+		}
+		for _, f := range structs[v.ty] {
+			if f.goName == l.Sel.Name {
+				return []string{fmt.Sprintf("%s := { %s with %s := %s }", v.lean, v.lean, f.lean, val)}
+			}
+		}
+		fail("field %s of %s", l.Sel.Name, v.ty)
 	case *ast.IndexExpr:
 		id, ok := l.X.(*ast.Ident)
 		if !ok {
@@ -693,6 +834,8 @@ func (t *ftr) lhsType(lhs ast.Expr) string {
 	case *ast.IndexExpr:
 		ty := t.typeOf(l.X)
 		return strings.TrimSuffix(strings.TrimPrefix(strings.TrimPrefix(ty, "List "), "("), ")")
+	case *ast.SelectorExpr:
+		return t.typeOf(l)
 	}
 	return ""
 }
@@ -705,7 +848,8 @@ func (t *ftr) assign(s *ast.AssignStmt) []string {
 			fail("op-assignment")
 		}
 		op := map[token.Token]token.Token{token.ADD_ASSIGN: token.ADD, token.SUB_ASSIGN: token.SUB, token.MUL_ASSIGN: token.MUL,
-			token.QUO_ASSIGN: token.QUO, token.REM_ASSIGN: token.REM}[s.Tok]
+			token.QUO_ASSIGN: token.QUO, token.REM_ASSIGN: token.REM, token.OR_ASSIGN: token.OR, token.AND_ASSIGN: token.AND,
+			token.XOR_ASSIGN: token.XOR, token.AND_NOT_ASSIGN: token.AND_NOT}[s.Tok]
 		if op == token.ILLEGAL {
 			fail("operator %s", s.Tok)
 		}
@@ -843,17 +987,36 @@ func (t *ftr) switchStmt(s *ast.SwitchStmt) []string {
 }
 
 // names assigned (as variables or through an index) anywhere inside n
-func assigned(n ast.Node) map[string]bool {
+func assigned(n ast.Node) map[string]bool { return assignedIn(n, false) }
+
+// inside a loop body a `:=` always declares a new variable (the body is a new scope): it never assigns loop state
+func assignedIn(n ast.Node, ignoreDefine bool) map[string]bool {
 	out := map[string]bool{}
 	ast.Inspect(n, func(x ast.Node) bool {
 		switch s := x.(type) {
 		case *ast.AssignStmt:
 			for _, l := range s.Lhs {
+				if _, isId := l.(*ast.Ident); isId && ignoreDefine && s.Tok == token.DEFINE {
+					continue
+				}
 				switch l := l.(type) {
 				case *ast.Ident:
 					out[l.Name] = true
 				case *ast.IndexExpr:
 					if id, ok := l.X.(*ast.Ident); ok {
+						out[id.Name] = true
+					}
+				case *ast.SelectorExpr:
+					if id, ok := l.X.(*ast.Ident); ok {
+						out[id.Name] = true
+					}
+				}
+			}
+		case *ast.ExprStmt:
+			// a call of a pointer-receiver method that modifies its receiver assigns the receiver
+			if c, ok := s.X.(*ast.CallExpr); ok {
+				if se, ok := c.Fun.(*ast.SelectorExpr); ok {
+					if id, ok := se.X.(*ast.Ident); ok && mutatingMethods[se.Sel.Name] {
 						out[id.Name] = true
 					}
 				}
@@ -891,7 +1054,13 @@ func (t *ftr) loopStmt(body *ast.BlockStmt, whole ast.Node, iter, elemTy string,
 	cond ast.Expr, post ast.Stmt) []string {
 	t.nloop++
 	fn := fmt.Sprintf("%s_loop%d", t.name, t.nloop)
-	asg := assigned(whole)
+	asg := assignedIn(body, true)
+	if fs, ok := whole.(*ast.ForStmt); ok && fuel {
+		// the counter declared in the init statement of a general loop is loop state
+		for n := range assigned(fs.Post) {
+			asg[n] = true
+		}
+	}
 	men := mentions(whole)
 	if t.named { // a bare `return` reads every named result
 		ast.Inspect(whole, func(n ast.Node) bool {
@@ -1168,12 +1337,20 @@ func (t *ftr) stmt(x ast.Stmt) []string {
 			return []string{t.emitReturn(t.resultVals())}
 		}
 		var pre, vals []string
-		if len(s.Results) == 1 && len(t.results) > 1 {
+		off := 0
+		if t.mutRecv {
+			off = 1
+			vals = append(vals, t.results[0].lean)
+		}
+		if len(s.Results) == 1 && len(t.results)-off > 1 {
+			if off == 1 {
+				fail("multi-value return in a receiver-modifying method")
+			}
 			p, v, _ := t.expr(s.Results[0], "")
 			return append(p, t.emitReturn(v))
 		}
 		for k, r := range s.Results {
-			p, v, _ := t.expr(r, t.results[k].ty)
+			p, v, _ := t.expr(r, t.results[k+off].ty)
 			pre = append(pre, p...)
 			vals = append(vals, v)
 		}
@@ -1190,6 +1367,18 @@ func (t *ftr) stmt(x ast.Stmt) []string {
 		}
 	case *ast.ExprStmt:
 		if c, ok := s.X.(*ast.CallExpr); ok {
+			if se, ok := c.Fun.(*ast.SelectorExpr); ok {
+				if id, ok := se.X.(*ast.Ident); ok {
+					if v, isVar := t.lookup(id.Name); isVar {
+						key := t.receiverKey(se.X) + "." + se.Sel.Name
+						if sg, ok := t.sigs[key]; ok && sg.mutRecv && len(sg.results) == 1 {
+							t.calls[key] = true
+							p, vs := t.callArgs(c, sg, 1)
+							return append(p, fmt.Sprintf("%s ← %s %s", v.lean, sg.lean, strings.Join(append([]string{v.lean}, vs...), " ")))
+						}
+					}
+				}
+			}
 			if id, ok := c.Fun.(*ast.Ident); ok {
 				switch id.Name {
 				case "panic":
@@ -1311,6 +1500,7 @@ func checkAliasing(fset *token.FileSet, fd *ast.FuncDecl) {
 // ---------------------------------------------------------------------------------------------
 
 type fnInfo struct {
+	mutRecv bool
 	key  string
 	fd   *ast.FuncDecl
 	file string
@@ -1324,6 +1514,11 @@ func keyOf(fd *ast.FuncDecl) string {
 	if fd.Recv != nil && len(fd.Recv.List) == 1 {
 		if id, ok := fd.Recv.List[0].Type.(*ast.Ident); ok {
 			return id.Name + "." + fd.Name.Name
+		}
+		if st, ok := fd.Recv.List[0].Type.(*ast.StarExpr); ok {
+			if id, ok := st.X.(*ast.Ident); ok {
+				return id.Name + "." + fd.Name.Name
+			}
 		}
 	}
 	return fd.Name.Name
@@ -1355,6 +1550,15 @@ func (fi *fnInfo) signature(fset *token.FileSet) (err string) {
 			}
 		}
 	}
+	if ps := fi.fd.Type.Params.List; len(ps) > 0 {
+		if _, ok := ps[len(ps)-1].Type.(*ast.Ellipsis); ok {
+			s.variadic = true
+		}
+	}
+	if fi.mutRecv {
+		s.mutRecv = true
+		s.results = append(s.results, s.params[0])
+	}
 	if fi.fd.Type.Results != nil {
 		for _, f := range fi.fd.Type.Results.List {
 			ty := leanType(fset, f.Type)
@@ -1383,7 +1587,7 @@ func (fi *fnInfo) translate(fset *token.FileSet, sigs map[string]*sig) (err stri
 	}()
 	fd := fi.fd
 	checkAliasing(fset, fd)
-	t := &ftr{fset: fset, sigs: sigs, name: fi.sig.lean, used: map[string]int{}, calls: map[string]bool{}}
+	t := &ftr{fset: fset, sigs: sigs, name: fi.sig.lean, used: map[string]int{}, calls: map[string]bool{}, mutRecv: fi.mutRecv}
 	t.push()
 	asg := assigned(fd.Body)
 	var params, pre []string
@@ -1399,8 +1603,13 @@ func (fi *fnInfo) translate(fset *token.FileSet, sigs map[string]*sig) (err stri
 			for _, n := range f.Names {
 				ln := t.declare(n.Name, ty)
 				params = append(params, fmt.Sprintf("(%s : %s)", ln, ty))
-				if asg[n.Name] {
+				if asg[n.Name] || (fi.mutRecv && fl == fd.Recv) {
 					pre = append(pre, fmt.Sprintf("let mut %s := %s", ln, ln))
+				}
+				if fi.mutRecv && fl == fd.Recv {
+					// the updated receiver is the first result of the translated function
+					t.results = append(t.results, variable{ln, ty})
+					t.named = true
 				}
 			}
 		}
@@ -1422,6 +1631,8 @@ func (fi *fnInfo) translate(fset *token.FileSet, sigs map[string]*sig) (err stri
 	body := t.block(fd.Body)
 	if len(t.results) == 0 {
 		body = append(body, "return ()")
+	} else if fi.mutRecv && len(t.results) == 1 {
+		body = append(body, "return "+t.results[0].lean)
 	}
 	var b strings.Builder
 	for _, a := range t.aux {
@@ -1462,6 +1673,28 @@ func main() {
 			if fd, ok := d.(*ast.FuncDecl); ok && fd.Body != nil {
 				found[keyOf(fd)] = fd
 			}
+			// `const ( A T = 1 << iota; B; C )`
+			if gd, ok := d.(*ast.GenDecl); ok && gd.Tok == token.CONST && len(gd.Specs) > 0 {
+				first := gd.Specs[0].(*ast.ValueSpec)
+				if len(first.Values) == 1 && src(fset, first.Values[0]) == "1 << iota" && first.Type != nil {
+					ty := tryLeanType(fset, first.Type)
+					if ty == "" {
+						continue
+					}
+					for k, sp := range gd.Specs {
+						vs := sp.(*ast.ValueSpec)
+						if k > 0 && (len(vs.Values) > 0 || vs.Type != nil) {
+							break
+						}
+						for _, n := range vs.Names {
+							consts[n.Name] = struct {
+								val int
+								ty  string
+							}{1 << uint(k), ty}
+						}
+					}
+				}
+			}
 		}
 		for _, n := range tg.names {
 			fi := &fnInfo{key: n, file: tg.file, fd: found[n]}
@@ -1470,6 +1703,24 @@ func main() {
 			}
 			fns = append(fns, fi)
 			byKey[n] = fi
+		}
+	}
+	// receiver-modifying pointer methods (fixpoint over direct field assignments and calls on the receiver)
+	for changed := true; changed; {
+		changed = false
+		for _, fi := range fns {
+			if fi.fd == nil || fi.fd.Recv == nil || fi.mutRecv {
+				continue
+			}
+			if _, ptr := fi.fd.Recv.List[0].Type.(*ast.StarExpr); !ptr || len(fi.fd.Recv.List[0].Names) == 0 {
+				continue
+			}
+			recv := fi.fd.Recv.List[0].Names[0].Name
+			if assigned(fi.fd.Body)[recv] {
+				fi.mutRecv = true
+				mutatingMethods[fi.fd.Name.Name] = true
+				changed = true
+			}
 		}
 	}
 	sigs := map[string]*sig{}
@@ -1549,6 +1800,14 @@ func main() {
 			b.WriteString("   " + s + "\n")
 		}
 		b.WriteString("-/\n\n")
+	}
+	var cnames []string
+	for n := range consts {
+		cnames = append(cnames, n)
+	}
+	sort.Strings(cnames)
+	for _, n := range cnames {
+		fmt.Fprintf(&b, "/-- constant `%s` of the Go source -/\ndef c_%s : %s := %d\n\n", n, n, consts[n].ty, consts[n].val)
 	}
 	var names []string
 	for _, fi := range order {
